@@ -115,7 +115,17 @@ JudgeEnc(c, e, m, d) ==
                     /\ nf = NbFr(e.q, post.mode) /\ Dur48(e.toc) = 120 * EncQ(e.q, post.mode)
                     /\ IF tmode = MODE_SILK THEN TocBandwidth(e.toc) <= Min(BW_WB, NyquistBw(c.Fs))
                        ELSE TocBandwidth(e.toc) = post.bw
+      \* a redundant frame the machine asks for is sent exactly when compute_redundancy_bytes() grants it room - unless
+      \* the speech layer overran its share (line 2218), in which case the frame fills its budget (6 bytes of slack)
+      cms   == FrameBudgets(e.vbr, e.ubr, e.mx, br, e.q, EncQ(e.q, post.mode), nf, e.sz, mdb)
+      redRoomOK(i) ==
+        LET cand == EncHandshake(pre, post, tmode, i, nf, e.sz[i])
+            rb0  == RedBytes(cms[i], br, 400 \div EncQ(e.q, post.mode), post.sch)
+        IN (Cardinality(cand) = 2) =>
+             /\ (rb0 = 0 => DecSaw(e.d2[i]) = <<FALSE, FALSE>>)
+             /\ (rb0 > 0 /\ DecSaw(e.d2[i]) = <<FALSE, FALSE>> => e.sz[i] + 1 >= cms[i] - 6)
       drift == Names({
+         <<"RedundancyWhenRoom", low \/ nf # NbFr(e.q, post.mode) \/ \A i \in 1..nf : redRoomOK(i)>>,
          <<"PreIsModel", pre = m>>,
          <<"LowPathWritesNothing", low => post = pre>>,
          <<"TocFollowsMachine", nf >= 1 /\ tocOK>>,
